@@ -194,7 +194,8 @@ static void c17_run_mem(const Case &c, Result &r) {
   r.nontrivial = inner.nontrivial;
   r.sample = c.str().substr(0, 1500);
 }
-static void c17_gen_mem6(Tape &t, Case &c) { c06_gen_bulk_public(t, c); }
+void c06_gen_public(Tape &t, Case &c);
+static void c17_gen_mem6(Tape &t, Case &c) { if (t.chance(1, 3)) c06_gen_bulk_public(t, c); else c06_gen_public(t, c); }
 static void c17_run_mem6(const Case &c, Result &r) {
   Result inner;
   c06_run(c, inner);
